@@ -444,6 +444,29 @@ class PyramidIO(object):
             yield img
             self.write_image(pos, img, format=format or self._default_format)
 
+    def level_has_tiles(self, level):
+        """
+        Test whether any tile file exists at the specified pyramid level.
+
+        Parameters
+        ----------
+        level : :class:`int` A tile pyramid depth.
+
+        Returns
+        -------
+        True if at least one tile file of any format is found at that level.
+        """
+        if self._tile_path == self._tile_path_LXY:
+            pattern = os.path.join(glob.escape(self._base_dir), f"L{level}X*Y*.*")
+        else:
+            pattern = os.path.join(glob.escape(self._base_dir), str(level), "*", "*_*.*")
+
+        for path in glob.iglob(pattern):
+            if not path.endswith(".lock"):
+                return True
+
+        return False
+
     def clean_lockfiles(self, level):
         """
         Clean up any lockfiles created during parallelized pyramid creation.
